@@ -450,10 +450,12 @@ def _combine_bytes(l: Lin) -> Lin:
     for (ta, ca), (tb, cb) in (items, items[::-1]):
         if _is_byte(ta) and _is_byte(tb) and ta[1] == tb[1] and ca == 256 and cb == 1:
             pa, pb = ta[2], tb[2]
+            def upper(hi):         # x[-2], x[-1] are x[-2:]: the slice that ends at index -1 + 1 has no upper bound
+                return None if hi.is_const() and hi.const == -1 else hi + Lin.of_const(1)
             if (pb - pa) == Lin.of_const(1):
-                return Lin.of_term(("int", ("slice", ta[1], pa, pb + Lin.of_const(1)), "big", False))
+                return Lin.of_term(("int", ("slice", ta[1], pa, upper(pb)), "big", False))
             if (pa - pb) == Lin.of_const(1):
-                return Lin.of_term(("int", ("slice", ta[1], pb, pa + Lin.of_const(1)), "little", False))
+                return Lin.of_term(("int", ("slice", ta[1], pb, upper(pa)), "little", False))
     return l
 
 
